@@ -132,11 +132,10 @@ pub fn run(ctx: &mut Ctx) {
         ctx.forall(&format!("comp/{}", id.name()), cases, strat(id, max), dispatch_comp);
     }
     for id in ALL_CODECS {
-        let th = ctx.thorough();
-        let cases = ctx.cases(6, 8);
-        ctx.forall(&format!("rev_long/{}", id.name()), cases, gen::seq_spec_long(id, th).prop_map(move |s| Case { codec: id, s }), dispatch_rev);
+        let lens = gen::long_lens(ctx.thorough());
+        ctx.forall_lens(&format!("rev_long/{}", id.name()), &lens, |n| gen::seq_spec_n(id, n).prop_map(move |s| Case { codec: id, s }), dispatch_rev);
         if COMP_CODECS.contains(&id) {
-            ctx.forall(&format!("comp_long/{}", id.name()), cases, gen::seq_spec_long(id, th).prop_map(move |s| Case { codec: id, s }), dispatch_comp);
+            ctx.forall_lens(&format!("comp_long/{}", id.name()), &lens, |n| gen::seq_spec_n(id, n).prop_map(move |s| Case { codec: id, s }), dispatch_comp);
         }
     }
     // bounded-exhaustive: every window (offset 0..=max_pre, length 0..=L) of one fixed parent per codec
